@@ -82,10 +82,10 @@ func (SlidingWindow) New(cfg Config) fiber.Handler {
 		windowEnd := e.exp
 
 		// weight = time until current window reset / total window length
-		weight := float64(resetInSec) / float64(expiration)
-
-		// rate = request count in previous window - weight + request count in current window
-		rate := int(float64(e.prevHits)*weight) + e.currHits
+		// rate = request count in previous window * weight (rounded down) + request count in current window.
+		// In whole numbers: binary floating point gets products like 90*(7/10) one too low (62.999...),
+		// which admitted one request more than the limit.
+		rate := int(uint64(e.prevHits)*resetInSec/expiration) + e.currHits //nolint:gosec // hit counts are small
 
 		// Calculate how many hits can be made based on the current rate
 		remaining := maxRequests - rate
